@@ -411,7 +411,10 @@ fn convert_prom_to_arrow(req: &WriteRequest) -> Result<RecordBatch> {
 
             // Detect value type and route to appropriate column
             let val = sample.value;
-            if val.is_finite() && val.fract() == 0.0 {
+            // 2^63 and beyond do not fit an i64: 'as i64' would saturate to i64::MAX, which
+            // converts back to 2^63 and would pass the round-trip test below
+            let fits_i64 = val >= -9_223_372_036_854_775_808.0 && val < 9_223_372_036_854_775_808.0;
+            if val.is_finite() && val.fract() == 0.0 && fits_i64 {
                 // Value is an integer (no fractional part)
                 let int_val = val as i64;
 
